@@ -104,8 +104,18 @@ func (g *genCtx) advBody(id uint16, v19 bool, phone []byte) []byte {
 		d := g.p.Svc.Dialect
 		switch r.intn(3) {
 		case 0:
-			b := attach1210Body(d, "T", "A", []UpFile{{Name: "x", Data: []byte{1}}})
-			b[len(b)-7] = byte(r.pick(2, 50, 255)) // attachment count exceeds the items
+			// attachment count exceeds the items present; the body ends exactly behind the last item. Long names
+			// keep the body longer than any coarse count*minimum-item-size estimate.
+			var files []UpFile
+			for k := 1 + r.intn(3); k > 0; k-- {
+				files = append(files, UpFile{Name: HexStr(g.body(1+r.intn(40), 1)), Data: []byte{1}})
+			}
+			b := attach1210Body(d, "T", "A", files)
+			at := len(b)
+			for _, f := range files {
+				at -= 1 + len(f.Name) + 4
+			}
+			b[at-1] = byte(len(files) + r.pick(1, 1, 2, 3, 50, 250)) // the count byte sits right before the first item
 			return b
 		case 1:
 			b := attach1210Body(d, "T", "A", []UpFile{{Name: "x", Data: []byte{1}}})
@@ -182,6 +192,22 @@ func (g *genCtx) hostileAttStream(ci int) ([]byte, string) {
 		return r.bytes(1 + r.intn(200)), "random_bytes"
 	}
 	var stream []byte
+	if r.chance(6) {
+		// a formally correct upload that leaves more holes than a completion response can count (one byte) or carry
+		holes := r.pick(255, 256, 257, 258, 300, 513)
+		size := 2*holes + 1
+		enc := func(id uint16, body []byte) {
+			f := ref.Frame{ID: id, Ver19: c.Ver19, VerByte: 1, Phone: c.Phone, Serial: g.randSerial(), Body: body}
+			stream = append(stream, f.Encode()...)
+		}
+		enc(0x1210, attach1210Body(d, "T", "A", []UpFile{{Name: "f.bin", Data: make([]byte, size)}}))
+		enc(0x1211, body1211("f.bin", 0, size))
+		for off := 0; off < size; off += 2 {
+			stream = append(stream, chunkUnit(d, "f.bin", off, []byte{byte(off)})...)
+		}
+		enc(0x1212, body1211("f.bin", 0, size))
+		return stream, "upload_with_too_many_holes"
+	}
 	ctl := func(id uint16, body []byte) {
 		f := ref.Frame{ID: id, Ver19: c.Ver19, VerByte: 1, Phone: c.Phone, Serial: g.randSerial(), Body: body}
 		if len(f.Body) > 1023 {
